@@ -245,6 +245,20 @@ func Ite(c, a, b *Term) *Term {
 	return mk("ite", a.Sort, c, a, b)
 }
 
+// knownLits: terms known (assumed) to equal an integer literal during the
+// generation of the current unit; comparisons against literals fold.
+var knownLits = map[*Term]*big.Int{}
+
+func litOf(t *Term) (*big.Int, bool) {
+	if v, ok := t.intVal(); ok {
+		return v, true
+	}
+	if v, ok := knownLits[t]; ok {
+		return v, true
+	}
+	return nil, false
+}
+
 func Eq(a, b *Term) *Term {
 	if a.Sort != b.Sort {
 		panic(fmt.Sprintf("Eq sort mismatch: %s : %s vs %s : %s", a, a.Sort, b, b.Sort))
@@ -252,9 +266,11 @@ func Eq(a, b *Term) *Term {
 	if sameTerm(a, b) && a.Sort != SFloat {
 		return tTrue
 	}
-	if av, ok := a.intVal(); ok {
-		if bv, ok := b.intVal(); ok {
-			return BoolLit(av.Cmp(bv) == 0)
+	if a.Sort == SInt {
+		if av, ok := litOf(a); ok {
+			if bv, ok := litOf(b); ok {
+				return BoolLit(av.Cmp(bv) == 0)
+			}
 		}
 	}
 	if a.Sort == SBool {
@@ -277,8 +293,8 @@ func Eq(a, b *Term) *Term {
 func Neq(a, b *Term) *Term { return Not(Eq(a, b)) }
 
 func cmpLit(op string, a, b *Term) (*Term, bool) {
-	av, ok1 := a.intVal()
-	bv, ok2 := b.intVal()
+	av, ok1 := litOf(a)
+	bv, ok2 := litOf(b)
 	if !ok1 || !ok2 {
 		return nil, false
 	}
